@@ -9,12 +9,17 @@ OpsBasic == {"en", "dis", "del"}
 OpsClose == {"en", "dis", "del", "close"}
 OpsInit == {"en", "dis", "del", "init"}
 OpsAll == {"en", "dis", "del", "close", "init"}
+OpsInitArm == {"en", "dis", "del", "init", "arm"}            \* + a timer callback that runs before the descriptors of its pass
+OpsCloseRe == {"en", "dis", "del", "close", "reinit"}        \* + re-initialise with other descriptor / conditions / mode
+OpsRe == {"en", "dis", "reinit"}
+OpsTimer == {"en", "dis", "del", "arm"}
+OpsEverything == {"en", "dis", "del", "close", "init", "reinit", "arm"}
 Code(v) == (IF v.mask = {"R"} THEN 0 ELSE IF v.mask = {"W"} THEN 1 ELSE 2) * 2 + (IF v.os THEN 1 ELSE 0)
 MCInit == Init /\ \A a, b \in E : a < b => Code(ev[a]) <= Code(ev[b])
 \* operations at main level only while setting up; the environment changes readiness between passes
 SetUp == passes = 0 /\ DoMainOp
 Env == passes < MaxPass /\ DoSetReady
-MCNext == Poll \/ SetUp \/ Env \/ DoNextFd \/ DoSub \/ DoCbOp \/ CbReturn \/ FinishFd \/ EndPass
+MCNext == Poll \/ TimerCb \/ SetUp \/ Env \/ DoNextFd \/ DoSub \/ DoCbOp \/ CbReturn \/ FinishFd \/ EndPass
 MCSpec == MCInit /\ [][MCNext]_vars
 
 \* as-found configuration for the record that is re-used for another descriptor inside the same pass (needs three
@@ -27,5 +32,5 @@ ReuseInit ==
   /\ pool = <<>> /\ ready = [fd \in FD |-> IF fd <= 2 THEN {"R"} ELSE {}] /\ closed = [fd \in FD |-> FALSE]
   /\ phase = "idle" /\ rlist = {} /\ cur = NoCur /\ copy = <<>> /\ run = 0 /\ opsLeft = 0 /\ passes = 0
   /\ pins = {} /\ timer = "off" /\ bad = FALSE /\ pollReady = [fd \in FD |-> {}] /\ cbEn = FALSE /\ viol = {}
-ReuseSpec == ReuseInit /\ [][Poll \/ DoNextFd \/ DoSub \/ DoCbOp \/ CbReturn \/ FinishFd \/ EndPass]_vars
+ReuseSpec == ReuseInit /\ [][Poll \/ TimerCb \/ DoNextFd \/ DoSub \/ DoCbOp \/ CbReturn \/ FinishFd \/ EndPass]_vars
 ====
